@@ -121,6 +121,12 @@ var waitFunc = wait
 // return nil if the timer fires before or at the same time as the context's
 // deadline.  This indicates that the call can be retried.
 func wait(ctx context.Context, delay time.Duration) error {
+	// A context that has ended before the wait begins did not end at the
+	// same time as the timer, however short the delay (including zero) is.
+	if err := ctx.Err(); err != nil {
+		return err
+	}
+
 	timer := time.NewTimer(delay)
 	defer timer.Stop()
 
